@@ -730,3 +730,37 @@ Proof.
   - exact (sorted_map _ lex_le key_index _ less_index_lex H1).
   - exact (sorted_map _ lex_le key_index _ less_index_lex H2).
 Qed.
+
+
+(* ---------- agreement under the hypothesis read at time t ---------- *)
+Lemma line_string_at_agrees_at_t t ns us :
+  annotated_at t ns us = true ->
+  way_apply t ns us = AOk (spec_nodes t us ns) (spec_pending t us) /\
+  line_string_at t ns us = Some (line_string (spec_nodes t us ns)).
+Proof.
+  unfold annotated_at. intro H. apply andb_prop in H as [H Hafter]. apply andb_prop in H as [Hfa Hrange].
+  destruct (line_string_at_general_lemma t ns us Hrange) as (ns' & p & Happ & Hls).
+  destruct (apply_exact_gen upd_node spec_node child_after_node _ _ _ _ _ Happ) as [Ens Ep].
+  unfold spec_nodes in *. subst ns' p. split; [exact Happ|]. rewrite Hls. f_equal.
+  destruct (apply_ok_inv _ _ _ _ _ _ Happ) as (_ & Hlen & _).
+  rewrite keep_annotated_all; [|exact Hfa|rewrite map_length; exact Hlen].
+  unfold line_string. unfold fully_annotated in Hafter. rewrite (filter_all _ _ Hafter). reflexivity.
+Qed.
+
+(* the former, stronger hypothesis implies the one read at time t *)
+Lemma updates_ok_annotated_at t ns us :
+  fully_annotated ns = true -> updates_ok t (length ns) us = true -> annotated_at t ns us = true.
+Proof.
+  intros Hfa Hok. unfold annotated_at. rewrite Hfa. cbn [andb].
+  assert (Hrange : all_in_range t (length ns) us = true).
+  { unfold all_in_range, updates_ok in *. rewrite forallb_forall in Hok |- *. intros u Hu.
+    specialize (Hok u Hu). destruct (t <? u_ts u); [reflexivity|]. cbn in *.
+    apply andb_prop in Hok as [Hok _]. exact Hok. }
+  rewrite Hrange. cbn [andb].
+  destruct (line_string_at_agrees_lemma t ns us Hfa Hok) as (ns' & p & Happ & _).
+  destruct (lsat_loop_agrees t us ns [] Hfa Hok) as (ns2 & p2 & Hd & Hfa2 & _ & _).
+  unfold way_apply, apply_updates_up_to in Happ. rewrite Hd in Happ. inversion Happ; subst ns' p.
+  assert (Happ' : way_apply t ns us = AOk ns2 p2) by (unfold way_apply, apply_updates_up_to; rewrite Hd; reflexivity).
+  destruct (apply_exact_gen upd_node spec_node child_after_node _ _ _ _ _ Happ') as [Ens _].
+  unfold spec_nodes. rewrite <- Ens. exact Hfa2.
+Qed.
